@@ -109,17 +109,30 @@ def run_harness(progfile, nprogs, timeout=600, extra=None, cap=3000, shards=None
     return results, "".join(raw)
 
 
+def _big_stack():
+    """the reference enumerations recurse deeply on some random programs: give the driver all the stack"""
+    import resource
+    try:
+        resource.setrlimit(resource.RLIMIT_STACK, (resource.RLIM_INFINITY, resource.RLIM_INFINITY))
+    except (ValueError, OSError):
+        try:
+            soft, hard = resource.getrlimit(resource.RLIMIT_STACK)
+            resource.setrlimit(resource.RLIMIT_STACK, (hard, hard))
+        except (ValueError, OSError):
+            pass
+
+
 def run_driver(mode, path, timeout=3600, cap=3000):
     """The extracted model / specification on a program file, sharded over several
     processes (modes whose input is a program file); other modes run as one process."""
     if mode not in ("run", "keys", "ref", "refw", "refa", "rc11s", "rc11w"):
-        p = subprocess.run([DRIVER, mode, path, "--cap", str(cap)], capture_output=True, text=True, timeout=timeout)
+        p = subprocess.run([DRIVER, mode, path, "--cap", str(cap)], capture_output=True, text=True, timeout=timeout, preexec_fn=_big_stack)
         return p.stdout, p.returncode, p.stderr
     from concurrent.futures import ThreadPoolExecutor
     files = shard_files(path, SHARDS)
 
     def one(f):
-        p = subprocess.run([DRIVER, mode, f, "--cap", str(cap)], capture_output=True, text=True, timeout=timeout)
+        p = subprocess.run([DRIVER, mode, f, "--cap", str(cap)], capture_output=True, text=True, timeout=timeout, preexec_fn=_big_stack)
         return p.stdout, p.returncode, p.stderr
     with ThreadPoolExecutor(len(files)) as ex:
         parts = list(ex.map(one, files))
